@@ -514,8 +514,15 @@ class MgmComputation(VariableComputation):
             if self.logger.isEnabledFor(logging.DEBUG):
                 self.logger.debug(f"Has all gains {self._gain}, {gains}")
             # determine if can change value and send ok message to neighbors
-            max_neighbors = max([gain for gain, _ in gains.values()])
-            if self._gain > max_neighbors:
+            # gains are signed (current cost - best cost): the best gain is the
+            # highest one when minimizing and the lowest one when maximizing.
+            if self._mode == "min":
+                max_neighbors = max([gain for gain, _ in gains.values()])
+                has_best_gain = self._gain > max_neighbors
+            else:
+                max_neighbors = min([gain for gain, _ in gains.values()])
+                has_best_gain = self._gain < max_neighbors
+            if has_best_gain:
                 if self.logger.isEnabledFor(logging.INFO):
                     self.logger.info(
                         f"Selects new value {self._new_value}, "
